@@ -53,7 +53,8 @@ fn generate(corpus: &Corpus, tier: Tier, run: u64, rng: &mut Rng) -> Option<Case
         jump_functions: false,
         eval_any_knot: false,
     };
-    let ops = gen_script(rng, &prog, &cfg);
+    let mut ops = gen_script(rng, &prog, &cfg);
+    crate::script::sprinkle_binding_changes(rng, &prog, &mut ops);
     let mut tail = gen_tail(rng, 3);
     if !prog.info.globals.is_empty() && rng.chance(1, 2) {
         let g = rng.pick(&prog.info.globals).clone();
